@@ -175,7 +175,7 @@ def run(ctx):
     h = G.build_harness(ctx)
     if not (drv and h):
         return
-    n = 30 if ctx.tier == "quick" else 500
+    n = 25 if ctx.tier == "quick" else 250
     if ctx.broken:
         n *= 10
     if ctx.replay:
